@@ -259,6 +259,14 @@ def switch_choice(body, b, idx):
 
 # ------------------------------------------------------------------ provenance
 
+_W = {"u8": 8, "i8": 8, "u16": 16, "i16": 16, "u32": 32, "i32": 32, "char": 32, "u64": 64, "i64": 64, "usize": 64, "isize": 64, "u128": 128, "i128": 128, "bool": 1}
+
+
+def _narrowing(src, dst):
+    a, b = _W.get((src or "").strip()), _W.get((dst or "").strip())
+    return a is not None and b is not None and b < a
+
+
 class Prov:
     """Flow-insensitive provenance of locals within one body.
 
@@ -371,7 +379,11 @@ class Prov:
         if k in ("ref", "rawptr", "copyderef"):
             return self.of_place(r["place"], depth)
         if k == "cast":
-            return self.of_operand(r["op"], depth)
+            inner = self.of_operand(r["op"], depth)
+            if r.get("ck") == "IntToInt" and _narrowing(r.get("from_ty"), r.get("ty")):
+                # a narrowing integer cast loses information: it is part of the value's provenance
+                return {("call", "narrow<%s>" % r.get("ty"), None, (frozenset(inner),))}
+            return inner
         if k == "bin":
             a = frozenset(self.of_operand(r["a"], depth))
             b = frozenset(self.of_operand(r["b"], depth))
